@@ -165,7 +165,10 @@ def mirror_function_issue(drv, kind, ru, order, args, body_sx):
     for the same model: same formals, same unpack statements in the same order with the same indices, same
     assignments in the same order, same slots written in the same places from the same names.  A let of the
     implementation may read fewer names than the definition mentions (sympy drops 0*x)."""
-    r = drv.ask(["mirror", kind, "1" if ru else "0", order])
+    if kind == "missing":
+        r = drv.ask(["mirrormissing", "1" if ru else "0", order[0], [[n, i] for n, i in order[1]]])
+    else:
+        r = drv.ask(["mirror", kind, "1" if ru else "0", order])
     f = r.get("func")
     if r.get("status") != "ok" or f is None:
         return "the mirror generator produces no function (" + str(r)[:80] + ")"
